@@ -301,6 +301,7 @@ func runCheck(def *CheckDef, flags map[string]string) int {
 	}
 	known := loadKnownFindings()
 	confirmed, unconfirmed, knownHit := 0, 0, map[string]int{}
+	confirmCalls := 0
 	var newViol []*candidate
 	for i, c := range toReplay {
 		if i >= len(rr) {
@@ -324,7 +325,9 @@ func runCheck(def *CheckDef, flags map[string]string) int {
 		if c.Native.Crashed {
 			ok = true
 		}
-		if !ok && def.Confirm != nil {
+		if !ok && def.Confirm != nil && confirmCalls < 10 {
+			// the translated (e.g. -race stress) confirmation is expensive: a bounded number of attempts per run
+			confirmCalls++
 			ok, _ = def.Confirm(c, repoDir(), harnessDir)
 		}
 		if !ok {
